@@ -150,7 +150,8 @@ def run_tlc(module, cfg_text, workdir=None, workers=8, timeout=1800, extra=(), c
     if "Postcondition" in r.out and "is false" in r.out:
         r.postcondition_false = True
     if coverage:
-        for line in r.out.splitlines():
+        last = r.out.rfind("The coverage statistics at")
+        for line in (r.out[last:] if last >= 0 else r.out).splitlines():
             mm = re.match(r"<(\w+) line .*>: (\d+):(\d+)$", line.strip())
             if mm and int(mm.group(2)) == 0 and int(mm.group(3)) == 0:
                 r.coverage_zero.append(mm.group(1))
